@@ -172,6 +172,7 @@ func checkSetGate(p *Prog, r *Report, kt *kindTable) {
 // checkMarshalPlumbing: shared by C01 and C04.
 func checkMarshalPlumbing(p *Prog, r *Report, prefix string) {
 	checkToManyEmission(p, r, prefix)
+	checkRelDataKey(p, r, prefix)
 	f := p.Fn("MarshalResource")
 	if f == nil {
 		r.fail("anchor MarshalResource not found")
